@@ -10,7 +10,7 @@
      bytes lying in the first m >= ew_ctr * CHUNK bytes of the block stream (authenticated
      mode: the current, tag-less chunk is lost — except chunk 0, D2).
 
-   This closes the gap stated in props/C14.v for C14_flush_durable_enc_partial. *)
+   This closes the gap that props/C14.v states for C14_flush_enc_layer_output (formerly ..._partial). *)
 From MLA Require Import Base Stream Blocks Writer WriterProofs Repair RepairSpec RepairPure
   RepairProofs2 RepairProofs5 RepairProofs6 EncLayer EncAuthFs EncWriter EncWriterProofs EncFlushProofs
   FlushProofs Run ComposeRdOnly ComposeRepair ComposeWriterRun.
